@@ -163,7 +163,10 @@ Lemma run_popenat T cur k part flags obj :
 Proof.
   intros Hc Hnul Hsl Hfl Hps Hdir. unfold w_openat, w_openat_follow, rustix_path.
   rewrite (tget_valid _ _ _ Hc), Hnul. cbn [negb Static.run].
-  unfold answer. cbn [sem]. rewrite Hc, Hfl, Hsl, Hnul. cbn [negb orb].
+  unfold answer. cbn [sem]. rewrite Hc.
+  assert (Hnf : has (N.lor (N.lor (N.lor flags OPENAT_NOFOLLOW_FORCED) OPENAT_FORCED) O_LARGEFILE) O_NOFOLLOW = true)
+    by (unfold opath_nofollow in Hfl; apply andb_true_iff in Hfl; apply Hfl).
+  rewrite Hnf, andb_false_r, Hfl, Hsl, Hnul. cbn [negb orb].
   destruct (Nat.leb_spec (PB s) (PB s + k)) as [_|Hlt]; [|lia].
   replace (PB s + k - PB s)%nat with k by lia. rewrite Hps, Hdir.
   cbn [as_fd]. pose proof (fresh_ge3 T). destruct (Z.leb_spec 0 (fresh T)); [reflexivity|lia].
@@ -178,7 +181,10 @@ Lemma run_popenat_notdir T cur k part flags obj :
 Proof.
   intros Hc Hnul Hsl Hfl Hps Hdir. unfold w_openat, w_openat_follow, rustix_path.
   rewrite (tget_valid _ _ _ Hc), Hnul. cbn [negb Static.run].
-  unfold answer. cbn [sem]. rewrite Hc, Hfl, Hsl, Hnul. cbn [negb orb].
+  unfold answer. cbn [sem]. rewrite Hc.
+  assert (Hnf : has (N.lor (N.lor (N.lor flags OPENAT_NOFOLLOW_FORCED) OPENAT_FORCED) O_LARGEFILE) O_NOFOLLOW = true)
+    by (unfold opath_nofollow in Hfl; apply andb_true_iff in Hfl; apply Hfl).
+  rewrite Hnf, andb_false_r, Hfl, Hsl, Hnul. cbn [negb orb].
   destruct (Nat.leb_spec (PB s) (PB s + k)) as [_|Hlt]; [|lia].
   replace (PB s + k - PB s)%nat with k by lia. rewrite Hps, Hdir.
   cbn [as_fd]. apply (run_fail1 s rp fz Hfz).
